@@ -306,3 +306,62 @@ func (s *SymStr) describe() string {
 	}
 	return sb.String()
 }
+
+// mathEq: equality of the mathematical values of two formatted integers.
+func mathEq(a, b strPart) *Term {
+	x, y := a.t, b.t
+	ext := func(p strPart) *Term {
+		if p.signed {
+			return SExt(p.t, 64)
+		}
+		return ZExt(p.t, 64)
+	}
+	if x.w == 64 && y.w == 64 && a.signed != b.signed {
+		// mixed signedness at full width: equal iff same bits and the signed one is >= 0
+		s := x
+		if b.signed {
+			s = y
+		}
+		return BAnd(Eq(x, y), BNot(Slt(s, BV(64, 0))))
+	}
+	if a.signed != b.signed {
+		s := a
+		if b.signed {
+			s = b
+		}
+		return BAnd(Eq(ext(a), ext(b)), BNot(Slt(s.t, BV(s.t.w, 0))))
+	}
+	return Eq(ext(a), ext(b))
+}
+
+// seqEqSeq: equality of two symbolic strings with the same literal skeleton.
+func (in *Interp) seqEqSeq(fr *frame, a, b *SymStr) *Term {
+	if a.tag != "seq" || b.tag != "seq" || len(a.parts) != len(b.parts) {
+		panic(pathAbort{"unsupported: == between differently shaped symbolic strings at " + fr.site()})
+	}
+	cond := TrueT
+	for i := range a.parts {
+		pa, pb := a.parts[i], b.parts[i]
+		if (pa.t == nil) != (pb.t == nil) {
+			panic(pathAbort{"unsupported: == between differently shaped symbolic strings at " + fr.site()})
+		}
+		if pa.t == nil {
+			if pa.lit != pb.lit {
+				// different literals around integers could still line up only in contrived
+				// cases (digits in literals); treat as unsupported unless clearly distinct
+				for _, c := range []byte(pa.lit + pb.lit) {
+					if isIntChar(c) {
+						panic(pathAbort{"unsupported: ambiguous symbolic string comparison at " + fr.site()})
+					}
+				}
+				return FalseT
+			}
+			continue
+		}
+		if pa.verb != pb.verb || pa.plus != pb.plus || pa.sharp != pb.sharp {
+			panic(pathAbort{"unsupported: == between differently formatted integers at " + fr.site()})
+		}
+		cond = BAnd(cond, mathEq(pa, pb))
+	}
+	return cond
+}
